@@ -444,7 +444,7 @@ func runC15(c *Ctx) {
 			}
 			for i, w := range writes {
 				nWrites++
-				t, path := PathAvoiding(fn, fn.Blocks[0].Instrs[0], func(in ssa.Instruction) bool { return in == w }, isClone, owned)
+				t, path := PathAvoiding(fn, nil, func(in ssa.Instruction) bool { return in == w }, isClone, owned)
 				c.Check(FuncKey(fn)+"::writes-only-its-own-copy#"+itoa(i), w.Pos(), t == nil, "a state may store into or append to its slice only after it took a private copy (s.m = slices.Clone(s.m)) or when it already owns it (s.cloned): the in-state is shared by the transfer runs for all successors; path without a copy: %s", PathString(fn, path))
 			}
 			// cloned is set only together with a clone
